@@ -122,3 +122,24 @@ add("C19", "exploration", "property-based testing (Hypothesis): generated legacy
     "every run.", "Domain restricted to what both the writer and the parser define (single-line ASCII values, numeric "
     "options are numbers or one whole %(var)s reference); errors the loader only collects are not violations.",
     "DESIGN.md section 3, C19")
+
+add("C03", "exploration", "property-based testing (Hypothesis): construction-based abstract workflows with confusable "
+    "names; independent replication model on the abstract workflow vs WorkflowGraph.graphFromFlowIR(primitive=False)",
+    "Abstract acyclic workflows (names that are prefixes/suffixes/substrings of each other or equal across stages, both "
+    "reference spellings, file paths, all graph-level methods, the same producer referenced through two methods, replica "
+    "counts literal or via global/stage/component variables, aggregators) are rendered to FlowIR and expanded by the "
+    "repository; node set, per-node references (aggregators: index order), arguments (token-wise), edges, replica "
+    "index/count and untouched fields must equal an independent expander working on the abstract workflow; a valid "
+    "workflow being rejected is a violation.",
+    "Names in [A-Za-z0-9_.-]+, unique per stage also after replica suffixes (and not equal to another component's replica "
+    "name); one replica count per workflow; references blank-separated in arguments.", "DESIGN.md section 3, C03")
+add("C04", "exploration", "property-based testing (Hypothesis) + exhaustive mask enumeration: generated layered "
+    "documents vs an independent overlay-and-substitute model",
+    "Every define/omit mask of one variable over 12 layers and one option per declared type over 10 layers is enumerated "
+    "for both platform choices (16k cases); Hypothesis adds documents with typed variables, reference chains spanning "
+    "layers, dangling references, inactive platforms/stages/overrides and cache-warming queries; user variables go "
+    "through a real variable file and a real package/Experiment. The resolved configuration must equal the model "
+    "(value, error for undefined references, declared Python types). One open known finding (early binding in the "
+    "replicated FlowIR) is excluded by signature.",
+    "Option values limited to what the package schema accepts; single variable file; bool options given through a "
+    "reference are only type-checked.", "DESIGN.md section 3, C04")
